@@ -5,6 +5,9 @@
 cd /verif/seeded
 NAMES=${@:-$(ls)}
 for S in $NAMES; do
+  if /venv/bin/python -c "import json,sys;sys.exit(0 if json.load(open('/verif/seeded/$S/meta.json')).get('retired') else 1)"; then
+    echo "$S: retired (see meta.json)"; continue
+  fi
   P=$(/venv/bin/python -c "import json;m=json.load(open('/verif/seeded/$S/meta.json'));print(m.get('check', m['property']))")
   WT=/tmp/sr_$S
   git -C /repo worktree remove --force $WT 2>/dev/null
